@@ -150,7 +150,8 @@ def run(scn, loop):
             yield ''
     idgen = {'sequential': generators.sequential, 'sequential0': ft.partial(generators.sequential, 0), 'empty_string': empty_string, 'randint': ft.partial(generators.randint, 1, 2 ** 40),
              'random': generators.random, 'uuid': generators.uuid}[p['idgen']]
-    client = C(id_gen_impl=idgen, strict=p['strict'], error_cls=VerifBase, request_args={'a': 'client', 'b': 'client'})
+    extra = {} if p['strict'] else {'batch_request_class': ft.partial(pjrpc.BatchRequest, strict=False)}     # a lenient client builds lenient batches
+    client = C(id_gen_impl=idgen, strict=p['strict'], error_cls=VerifBase, request_args={'a': 'client', 'b': 'client'}, **extra)
     calls = p['calls']
     nt = p['notation']
 
